@@ -121,6 +121,10 @@ def r4_check_fit_input(ctx):
         for c, val in p.conds:
             if c[0] == "call" and callee(c) == "builtins.any" and any(x[0] == "cmp" and x[1] in ("isnot", "is") for x in walk(c)) and ("param", "weights") in Q.leaves(c):
                 hasw = val
+        if hasw is None and v[0] == "tuple" and len(v[1]) == 3:
+            # the test is written in a form the decisions do not show (an early-exit loop over the weights): the returned weights tell -
+            # Nones for "no weights", raveled arrays otherwise
+            hasw = not any(x == NONE for x in walk(v[1][2]))
         unpack = lookup(p.decided, ("param", "unpack"))
         tag = "%s,%s,%s" % ("weights" if hasw else "noweights", "unpack" if unpack else "tuples", Q.tags(p.conds[-2:]))
         if v[0] != "tuple" or len(v[1]) != 3:
@@ -133,7 +137,7 @@ def r4_check_fit_input(ctx):
                 t = t[1]
             return t
         okc = Q.unwrap(co) == ("param", "coordinates")
-        okd = Q.unwrap(base(da)) == ("param", "data")
+        okd = Q.unwrap(base(da)) == ("param", "data") or base(da) == ("tuple", (("param", "data"),))      # check_data written out: data = (data,)
         wb = base(we)
         if hasw:
             wb = Q.unseq(wb)
@@ -142,6 +146,15 @@ def r4_check_fit_input(ctx):
             from .c18 import order_args
             if wb[0] == "comp" and order_args(wb[2]):
                 okw, rev = False, True
+            if wb[0] == "tuple" and wb[1] and not okw:
+                # a path on which the weights are a literal tuple (`weights = (weights,)` for a single array): element i must be the plain
+                # ravel of element i
+                W = ("param", "weights")
+                srcs = [Q.ravel_of(Q.unwrap(x, funcs=set(), methods=set())) for x in wb[1]]
+                if all(s_ is not None and s_[1] for s_ in srcs):
+                    got_w = [Q.unwrap(s_[0]) for s_ in srcs]
+                    okw = got_w == ([W] if len(got_w) == 1 else []) or got_w == [Q.sub(W, i) for i in range(len(got_w))]
+                    rev = len(got_w) > 1 and got_w == [Q.sub(W, i) for i in reversed(range(len(got_w)))]
         else:
             okw = wb[0] in ("tuple", "call", "binop") or wb == NONE or True
             rev = False
